@@ -20,6 +20,7 @@ static C02: checks::book::C02 = checks::book::C02;
 static C03: checks::book::C03 = checks::book::C03;
 static C04: checks::book::C04 = checks::book::C04;
 static C06: checks::c06::C06 = checks::c06::C06;
+static C08: checks::c08::C08 = checks::c08::C08;
 static C11: checks::c11::C11 = checks::c11::C11;
 static C12: checks::c12::C12 = checks::c12::C12;
 static C13: checks::c13::C13 = checks::c13::C13;
@@ -27,7 +28,7 @@ static C13: checks::c13::C13 = checks::c13::C13;
 static C14: checks::c14::C14 = checks::c14::C14;
 
 fn registry() -> Vec<&'static dyn DynCheck> {
-    vec![&C01, &C02, &C03, &C04, &C06, &C11, &C12, &C13, &C14]
+    vec![&C01, &C02, &C03, &C04, &C06, &C08, &C11, &C12, &C13, &C14]
 }
 
 fn find(id: &str) -> &'static dyn DynCheck {
